@@ -54,7 +54,7 @@ impl ops::Deref for UserInfo {
 impl cmp::PartialEq for UserInfo {
 	#[inline]
 	fn eq(&self, other: &UserInfo) -> bool {
-		self.as_pct_str() == other.as_pct_str()
+		self.as_pct_str().bytes().eq(other.as_pct_str().bytes())
 	}
 }
 
@@ -77,14 +77,14 @@ impl PartialOrd for UserInfo {
 impl Ord for UserInfo {
 	#[inline]
 	fn cmp(&self, other: &UserInfo) -> cmp::Ordering {
-		self.as_pct_str().cmp(other.as_pct_str())
+		self.as_pct_str().bytes().cmp(other.as_pct_str().bytes())
 	}
 }
 
 impl Hash for UserInfo {
 	#[inline]
 	fn hash<H: hash::Hasher>(&self, hasher: &mut H) {
-		self.as_pct_str().hash(hasher)
+		self.as_pct_str().bytes().for_each(|b| b.hash(hasher))
 	}
 }
 
